@@ -2312,3 +2312,172 @@ _UNARY[np.isnan] = _el_isnan
 _UNARY[np.isinf] = lambda v: v.isinf() if isinstance(v, SymFP) else (False if is_sym(v) else bool(np.isinf(v)))
 _UNARY[np.isfinite] = lambda v: SymBool(z3.And(z3.Not(z3.fpIsNaN(v.t)), z3.Not(z3.fpIsInf(v.t)))) if isinstance(v, SymFP) \
     else (True if is_sym(v) else bool(np.isfinite(v)))
+
+
+# --------------------------------------------------------------------------
+# rational functions as numerator/denominator polynomial pairs
+# --------------------------------------------------------------------------
+def _som(t):
+    return z3.simplify(t, som=True)
+
+
+_ONE = z3.RealVal(1)
+
+
+class SymQ:
+    """num/den pair of polynomial z3 terms (kept expanded with simplify(som=True)).
+    z3's nlsat does not cope with deeply nested quotients; identities between SymQ values are
+    discharged cross-multiplied under the side conditions den != 0 (recorded in NONZERO)."""
+    __slots__ = ('n', 'd')
+    __array_ufunc__ = None
+    NONZERO = []      # denominators introduced by divisions (terms assumed/proved non-zero by the harness)
+    ABS_SEEN = []     # arguments of abs() comparisons that were resolved by assumption
+
+    def __init__(self, n, d=None):
+        self.n = n
+        self.d = _ONE if d is None else d
+
+    @staticmethod
+    def of(v):
+        if isinstance(v, SymQ):
+            return v
+        if isinstance(v, Sym):
+            return SymQ(v.t)
+        if isinstance(v, np.ndarray) and v.ndim == 0:
+            return SymQ.of(v[()])
+        return SymQ(ratval(v))
+
+    def _const_den(self):
+        return _const_value(self.d)
+
+    def __add__(self, o):
+        if isinstance(o, np.ndarray):
+            return _arr_binop(self, o, np.add)
+        o = SymQ.of(o)
+        if z3.eq(self.d, o.d):
+            return SymQ(_som(self.n + o.n), self.d)
+        return SymQ(_som(self.n * o.d + o.n * self.d), _som(self.d * o.d))
+
+    def __radd__(self, o):
+        if isinstance(o, np.ndarray):
+            return _arr_binop(o, self, np.add)
+        return self.__add__(o)
+
+    def __neg__(self):
+        return SymQ(_som(-self.n), self.d)
+
+    def __sub__(self, o):
+        if isinstance(o, np.ndarray):
+            return _arr_binop(self, o, np.subtract)
+        return self + (-SymQ.of(o))
+
+    def __rsub__(self, o):
+        if isinstance(o, np.ndarray):
+            return _arr_binop(o, self, np.subtract)
+        return SymQ.of(o) - self
+
+    def __mul__(self, o):
+        if isinstance(o, np.ndarray):
+            return _arr_binop(self, o, np.multiply)
+        o = SymQ.of(o)
+        return SymQ(_som(self.n * o.n), _som(self.d * o.d))
+
+    def __rmul__(self, o):
+        if isinstance(o, np.ndarray):
+            return _arr_binop(o, self, np.multiply)
+        return self.__mul__(o)
+
+    def __truediv__(self, o):
+        if isinstance(o, np.ndarray):
+            return _arr_binop(self, o, np.true_divide)
+        o = SymQ.of(o)
+        c = _const_value(o.n)
+        if c is not None:
+            if c == 0:
+                raise Unsupported('division by constant zero')
+            return SymQ(_som(self.n * o.d * ratval(1 / c)), self.d)
+        SymQ.NONZERO.append(o.n)
+        return SymQ(_som(self.n * o.d), _som(self.d * o.n))
+
+    def __rtruediv__(self, o):
+        if isinstance(o, np.ndarray):
+            return _arr_binop(o, self, np.true_divide)
+        return SymQ.of(o).__truediv__(self)
+
+    def __pow__(self, k):
+        k = int(k)
+        if k < 0:
+            return SymQ(_ONE) / (self ** (-k))
+        return SymQ(_som(_pow_term(self.n, k)), _som(_pow_term(self.d, k)))
+
+    def __abs__(self):
+        return _AbsQ(self)
+
+    def eq_term(self, o):
+        """z3 Bool: self == o, cross-multiplied (valid where denominators are non-zero)"""
+        o = SymQ.of(o)
+        return _som(self.n * o.d - o.n * self.d) == 0
+
+    def term(self):
+        return self.n / self.d if _const_value(self.d) != 1 else self.n
+
+    def _nocmp(self, *a):
+        raise Unsupported('ordering comparison of rational-function values')
+
+    __lt__ = __le__ = __gt__ = __ge__ = _nocmp
+    __hash__ = None
+
+    def __float__(self):
+        raise Unsupported('SymQ coerced to float')
+
+    @property
+    def shape(self):
+        return ()
+
+    @property
+    def ndim(self):
+        return 0
+
+    @property
+    def size(self):
+        return 1
+
+    def __repr__(self):
+        return 'SymQ(%s / %s)' % (str(self.n)[:40], str(self.d)[:40])
+
+
+class _AbsQ:
+    """|q| that only supports the 'is it tiny' test of EpsAlg: the harness assumes the
+    non-degenerate branch (no table difference vanishes) and records the assumption."""
+    __array_ufunc__ = None
+
+    def __init__(self, q):
+        self.q = q
+
+    def __le__(self, o):
+        SymQ.ABS_SEEN.append(self.q)
+        return False
+
+    def __lt__(self, o):
+        SymQ.ABS_SEEN.append(self.q)
+        return False
+
+    def __gt__(self, o):
+        SymQ.ABS_SEEN.append(self.q)
+        return True
+
+    def __ge__(self, o):
+        SymQ.ABS_SEEN.append(self.q)
+        return True
+
+
+_is_sym_prev = is_sym
+
+
+def is_sym(v):  # noqa: F811
+    return isinstance(v, (Sym, SymBool, SymC, SymFP, SymQ))
+
+
+def const(v):
+    """a concrete rational as an (exact) symbolic constant: arithmetic on it stays exact"""
+    return Sym(ratval(v))
